@@ -106,7 +106,9 @@ def build_lm(env, nparam, cached, solver_may_fail, strategy_real=None):
             self.calls.append((last, loss))
             pg['damping'] = env.scalar(f'damping_new{len(self.calls)}', positive=True)[0]
     strat = strategy_real or Recorder()
-    opt = optm.LevenbergMarquardt(m, solver=Solver(), strategy=strat, reject=env.scalar('reject', nonneg=True, regimes=('zero', 'generic'), integer=True)[0])
+    rej = env.scalar('reject', nonneg=True, regimes=('zero', 'generic'), integer=True)[0]
+    opt = optm.LevenbergMarquardt(m, solver=Solver(), strategy=strat, reject=rej)
+    env.eq('the rejection budget is the reject given to the constructor (0 included: a single trial)', opt.reject, rej)
     ghost = Ghost(env, [m.p])
     rm = opt.model
     object.__setattr__(rm, 'loss', ghost.loss)
